@@ -257,16 +257,23 @@ def stream_bindings(ctx, impl, drv):
         ctx.dist("get_bindings:" + ("exc" if "exc" in real else "ok"))
         if real != m:
             ctx.cov["disagreements_checked"] += 1
-            ctx.broken.append("corr:get_bindings")
-            ctx.notes.append({"stream": "get_bindings", "input": [label, caps], "impl": real, "model": m})
+            unordered = [b for b in real.get("r", []) if b[1] > b[2]]
+            if unordered:  # the property itself (C02_binding_ordered): start <= end
+                ctx.violations.append({"what": "get_bindings yields a span with start > end",
+                                       "signature": None,
+                                       "replay": {"kind": "binding", "label": label, "captures": caps, "impl": real, "model": m,
+                                                  "spec": "start <= end (the ordered pair of the captured lines)"}})
+            else:
+                ctx.broken.append("corr:get_bindings")
+                ctx.notes.append({"stream": "get_bindings", "input": [label, caps], "impl": real, "model": m})
             break
         if "r" in real:  # the theorem's reading: start / end are the lines of the first / last (or paired) POS
             first, last = caps["POS"][0].split(":")[0], caps["POS"][-1].split(":")[0]
             paired = bool(caps.get("SUFFIX")) and len(caps["SUFFIX"]) == len(caps["POS"])
             for k, (nm, s, e, path) in enumerate(real["r"]):
-                exp = (int(caps["POS"][k].split(":")[0]),) * 2 if paired else (int(first), int(last))
+                exp = (int(caps["POS"][k].split(":")[0]),) * 2 if paired else tuple(sorted((int(first), int(last))))
                 if (s, e) != exp:
-                    ctx.violations.append({"what": "get_bindings: span is not (line of first POS, line of last POS)",
+                    ctx.violations.append({"what": "get_bindings: span is not the ordered pair of the lines of the first and last POS",
                                            "signature": None,
                                            "replay": {"kind": "binding", "label": label, "captures": caps, "impl": real, "model": m,
                                                       "spec": list(exp)}})
@@ -283,7 +290,10 @@ STMTS = [
     ["with open(p) as h:", "    s = h.read()"], ["@dec", "def g():", "    pass"],
     ["@dec", "async def h():", "    await k()"], ["async def k():", "    pass"],
     ["z = [i * i for i in range(10) if i % 2]"], ["t = (", "    1,", "    2,", ")"],
-    ["s = '''a", "b'''"], ["lambda q: q"], ["assert x, 'm'"], ["print(\"_pos=7:1-\")"], ["@dec([q for q in range(3)])", "def g2():", "    pass"], ["x = b\"it's\""], ["d = {k: v for k, v in p}"],
+    ["s = '''a", "b'''"], ["lambda q: q"], ["assert x, 'm'"], ["print(\"_pos=7:1-\")"], ["@dec([q for q in range(3)])", "def g2():", "    pass"],
+    ["# type: ignore"], ["w = []  # type: list"], ["def g3(a):  # type: ignore", "    return a"],
+    ["def g4(a):", "    # type: (int) -> int", "    return a"], ["# type: some prose, not a type"],
+    ["print(x)  # type: prose after a call"], ["v = 1  # type: ignore"], ["x = b\"it's\""], ["d = {k: v for k, v in p}"],
     ["def r(n):", "    if n < 2:", "        return n", "    return r(n - 1) + r(n - 2)"],
     ["global_v: int = 3"], ["del x"], ["x = y = 0"], ["a, b = b, a"],
 ]
@@ -405,7 +415,12 @@ def stream_tag_collect(ctx, impl, drv, real_programs):
     # two shapes reported on the unchanged code (findings F29, F30), always exercised
     programs = ["x = 1\ndef f(): # paroxython: function:a\n    return x\ndef h(): # paroxython: function:b\n    yield x\n",
                 "x = 1\nprint(\"_pos=99:x\")\n",
-                "@decorator([x for x in range(3)])\ndef f():\n    pass\n"]  # F34
+                "@decorator([x for x in range(3)])\ndef f():\n    pass\n",  # F34
+                # comments that LOOK like type comments (mypy idioms and prose): comments, not code
+                "# type: ignore\nx = 1\ny = 2\n",
+                "def f(a):  # type: ignore\n    return a\nz = f(1)  # type: int\n",
+                "x = 1\n# type: this is prose\ny = 2\nprint(x)  # type: prose here\n",
+                "def g(a):\n    # type: (int) -> int\n    return a\nx = []  # type: list\n# type: ignore\n"]
     while len(programs) < n:
         t = gen_program(ctx.rng, real_programs)
         if t is not None and impl.admissible(t):
@@ -430,6 +445,18 @@ def stream_tag_collect(ctx, impl, drv, real_programs):
             check_spans(ctx, drv, f"tag:{tags}", stored, rows, raw, viol)
             if tags == "Taxon":
                 check_meta_program(ctx, "tag", stored, [nm for nm, sps in rows for _ in sps], raw, viol)
+            if "# type:" in raw and "paroxython" not in raw.lower():
+                # a comment is not code: the same program with the comment reworded must get the same spans
+                # (in particular meta/program must still span the statements of the program)
+                try:
+                    ref = parse_table(H.quiet(cli_tag.main, impl.ut.Source(raw.replace("# type:", "# typo:")), tags))
+                except Exception:  # noqa
+                    ref = None
+                ctx.dist("tag:type-comment-programs")
+                if ref is not None and ref != rows:
+                    diff = [[a, b] for a, b in zip(rows, ref) if a != b][:4] or [[rows[-3:], ref[-3:]]]
+                    viol.append((None, f"tag:{tags}", raw, stored, diff,
+                                 "spans of the same program with `# type:` reworded `# typo:` (a comment is not code)"))
     # ---- collect, both strategies, batches
     root = ctx.scratch_dir()
     B = 25
